@@ -301,7 +301,7 @@ Fixpoint parse_tlvs (fuel : nat) (esm : Z) (codec : enc) (pdu : list Z) (plen : 
            | TyBool => parse_tlvs f esm codec pdu plen index (acc ++ [{| op_tag := tag; op_val := TBool true |}]) payload
            | TyStr =>
              do s <- ascii_decode (slice_b pdu index (Z.to_nat len));
-             let s := match rev s with 0 :: r => rev r | _ => s end in
+             let s := if mem tag tlv_cstring_tags_tlv then match rev s with 0 :: r => rev r | _ => s end else s in
              parse_tlvs f esm codec pdu plen (index + Z.to_nat len) (acc ++ [{| op_tag := tag; op_val := TStr s |}]) payload
            end
   end.
@@ -367,17 +367,15 @@ Definition decode (default : enc) (pdu : list Z) (h : header) : res message :=
     Ok (MBind cmd {| b_seq := h_seq h; b_status := 0; b_system_id := sid; b_password := pw; b_system_type := sty;
                      b_iface := ifv; b_ton := ton; b_npi := npi; b_range := rng |})
   else if is_bind_resp cmd then
-    match find_nul (skipn 16 pdu) 16 with
-    | None => Err EXN_ValueError
-    | Some e =>
-      do sid <- ascii_decode (firstn (e - 16) (skipn 16 pdu));
-      let index := S e in
-      do ver <- (if Nat.ltb index (Z.to_nat (h_len h)) then
-                   (if Nat.eqb (index + 4 + 1) (Z.to_nat (h_len h)) then (do v <- unpackB pdu (index + 4); Ok (Some v)) else Ok None)
-                 else Ok None);
-      do _ <- check_len sid 15;
-      Ok (MBindResp cmd (h_seq h) (h_status h) sid ver)
-    end
+    (* pdu.find(NULL, 16); a body omitted on error status reads as an empty system_id *)
+    let e := match find_nul (skipn 16 pdu) 16 with Some e => e | None => length pdu end in
+    do sid <- ascii_decode (firstn (e - 16) (skipn 16 pdu));
+    let index := S e in
+    do ver <- (if Nat.ltb index (Z.to_nat (h_len h)) then
+                 (if Nat.eqb (index + 4 + 1) (Z.to_nat (h_len h)) then (do v <- unpackB pdu (index + 4); Ok (Some v)) else Ok None)
+               else Ok None);
+    do _ <- check_len sid 15;
+    Ok (MBindResp cmd (h_seq h) (h_status h) sid ver)
   else if mem cmd message_type_map_keys then Ok (MPlain cmd (h_seq h) (h_status h))
   else Err EXN_KeyError.
 
